@@ -277,7 +277,60 @@ where
         "out":codes(out.as_bytes()),"ser":codes(ser.as_bytes()),"de_ok":de_ok}));
 }
 
+/// `str::parse::<Key<V, K>>()`: a key object comes only out of well-formed PASERK text of its own version and kind, and prints
+/// back (through `expose_key`) as the string it was parsed from
+fn emit_keyobj<B: Backend, K: paseto_core::key::KeyType>(rec: &mut Recorder, kind: &str, s: &str)
+where
+    B::V: paseto_core::key::HasKey<K>,
+{
+    let r = std::panic::catch_unwind(std::panic::AssertUnwindSafe(|| s.parse::<paseto_core::key::Key<B::V, K>>().map(|k| k.expose_key().to_string())));
+    let (ok, out, panic) = match r {
+        Ok(Ok(o)) => (true, o, false),
+        Ok(Err(_)) => (false, String::new(), false),
+        Err(_) => (false, String::new(), true),
+    };
+    rec.emit(json!({"fn":"keyobj","be":B::NAME,"kind":kind,"in":codes(s.as_bytes()),"ok":ok,"out":codes(out.as_bytes()),"panic":panic}));
+}
+
+fn keyobj_inputs<B: Backend>(rec: &mut Recorder, rng: &mut Prng) {
+    let k = <B::V as Version>::PASERK_HEADER;
+    let mut inputs: Vec<String> = Vec::new();
+    let alnum = |rng: &mut Prng, n: usize| -> String { (0..n).map(|_| *rng.pick(b"ABCDEFGHIJKLMNOPQRSTUVWXYZabcdefghijklmnopqrstuvwxyz0123456789-_") as char).collect() };
+    // strings that are exactly as long as some raw key, with and without (foreign) headers
+    for n in [31usize, 32, 33, 48, 49, 64, 65, 96] {
+        inputs.push(alnum(rng, n));
+        inputs.push("A".repeat(n));
+        for other in ["k1", "k2", "k3", "k4"] {
+            for kind in ["local", "public", "secret"] {
+                let h = format!("{other}.{kind}.");
+                if h.len() < n {
+                    inputs.push(format!("{h}{}", alnum(rng, n - h.len())));
+                }
+            }
+        }
+    }
+    inputs.push("-----BEGIN PUBLIC KEY-----\nMIIBIjANBgkqhkiG9w0BAQEFAAOCAQ8AMIIBCgKCAQEA\n-----END PUBLIC KEY-----\n".to_string());
+    inputs.push(String::new());
+    // well-formed text of the right and of neighbouring body lengths, and single-character damage of it
+    for kind in ["local", "public", "secret"] {
+        for n in [31usize, 32, 33, 48, 49, 64] {
+            let base = format!("{k}.{kind}.{}", crate::b64::enc(&rng.bytes(n)));
+            inputs.push(base.clone());
+            inputs.push(format!("{base}A"));
+            inputs.push(format!(" {base}"));
+            inputs.push(base.replacen('.', "..", 1));
+            inputs.push(base.to_uppercase());
+        }
+    }
+    for s in &inputs {
+        emit_keyobj::<B, Local>(rec, "key.local", s);
+        emit_keyobj::<B, Public>(rec, "key.public", s);
+        emit_keyobj::<B, Secret>(rec, "key.secret", s);
+    }
+}
+
 fn grammar<B: Backend>(rec: &mut Recorder, rng: &mut Prng, cfg: &Cfg) {
+    keyobj_inputs::<B>(rec, rng);
     let be = B::NAME;
     let v = <B::V as Version>::HEADER;
     let k = <B::V as Version>::PASERK_HEADER;
